@@ -277,7 +277,7 @@ def run_frontend(fe, tab, cfg_dict, tmpdir=None):
                 shutil.rmtree(d, ignore_errors=True)
         else:
             raise ValueError(fe)
-        with np.errstate(all="ignore"):
+        with np.errstate(all="ignore"), sut.time_limit(60):
             return list(st.run(cfg))
 
 
